@@ -16,6 +16,10 @@ import (
 // concrete runs.
 type Poly struct {
 	t map[string]*big.Int
+	// memoised key (polynomials are immutable once built; kn guards against a map that was still
+	// being filled when the key was first asked for)
+	k  string
+	kn int
 }
 
 const monoSep = ","
@@ -196,6 +200,17 @@ func (p *Poly) monos() []string {
 
 // key is a canonical textual form (used to identify predicates across re-executions).
 func (p *Poly) key() string {
+	if p.k != "" && p.kn == len(p.t) {
+		return p.k
+	}
+	k := p.keySlow()
+	if len(p.t) > 0 {
+		p.k, p.kn = k, len(p.t)
+	}
+	return k
+}
+
+func (p *Poly) keySlow() string {
 	var sb strings.Builder
 	for _, m := range p.monos() {
 		sb.WriteString(p.t[m].Text(62))
